@@ -14,7 +14,7 @@ for log in sorted(glob.glob("/verif/seeded/_runs/*.log")):
 os.makedirs(OUT, exist_ok=True)
 for sid in sorted(needs):
     pid, v = sid[:3], sid[3]
-    src = f"{SRC}/out-{pid}/{v}"
+    src = f"{SRC}/out{ {'A':'','B':'','C':'3','D':'3','E':'4','F':'4'}[v] }-{pid}/{v}"
     if not os.path.isdir(src):
         continue
     dst = f"{OUT}/{sid}"
